@@ -271,8 +271,8 @@ func drawMut(t *rapid.T) *pbt.Case {
 	var muts []string
 	for i := 0; i < n; i++ {
 		muts = append(muts, fmt.Sprintf("%s:%d:%d",
-			rapid.SampledFrom([]string{"swap-payload", "drop-payload", "truncate-details", "extra-details", "retarget-family", "message-type", "empty-payload", "garble-payload", "clear-message", "garble-details", "garble-details"}).Draw(t, "mut"),
-			rapid.IntRange(0, 30).Draw(t, "a"), rapid.IntRange(0, 60).Draw(t, "b")))
+			rapid.SampledFrom([]string{"swap-payload", "drop-payload", "truncate-details", "extra-details", "retarget-family", "message-type", "empty-payload", "garble-payload", "clear-message", "garble-details", "garble-details", "stack-details", "stack-details"}).Draw(t, "mut"),
+			rapid.IntRange(0, 30).Draw(t, "a"), rapid.OneOf(rapid.IntRange(0, 60), rapid.IntRange(0, 8*8*8*8*8*8-1)).Draw(t, "b")))
 	}
 	c.SetList("mutations", muts)
 	return c
@@ -334,6 +334,31 @@ func mutate(enc *errorspb.EncodedError, muts []string) {
 		case "garble-payload":
 			if d.FullDetails != nil && !strings.Contains(d.FullDetails.TypeUrl, "EncodedError") {
 				d.FullDetails = &types.Any{TypeUrl: d.FullDetails.TypeUrl, Value: []byte{0xff, byte(b), 0xff}}
+			}
+		case "stack-details":
+			// replace the printed stack of a stack-carrying layer (any
+			// layer if there is none) by a sequence of up to six lines over
+			// the grammar of printed stacks: function lines, tab-indented
+			// file:line lines, blanks - in any order and multiplicity.
+			atoms := []string{"main.f", "\tfile.go:12", "\t/x/y.go:7", "\tfile.go", "", "\t", "unknown", "pkg.(*T).M"}
+			var lines []string
+			for x := b; x > 0 && len(lines) < 6; x /= 8 {
+				lines = append(lines, atoms[x%8])
+			}
+			tgt := d
+			var stacks []*errorspb.EncodedErrorDetails
+			for _, x := range ds {
+				if strings.Contains(x.ErrorTypeMark.FamilyName, "withStack") || strings.Contains(x.ErrorTypeMark.FamilyName, "fundamental") {
+					stacks = append(stacks, x)
+				}
+			}
+			if len(stacks) > 0 {
+				tgt = stacks[a%len(stacks)]
+			}
+			if len(tgt.ReportablePayload) > 0 {
+				tgt.ReportablePayload[0] = strings.Join(lines, "\n")
+			} else {
+				tgt.ReportablePayload = []string{strings.Join(lines, "\n")}
 			}
 		case "garble-details":
 			// replace one reportable string (e.g. a printed stack trace) by other text
